@@ -96,10 +96,10 @@ type reqState struct {
 	driverRecovered bool
 	doneTimeout     bool
 	preEntered      int
-	ctxCancelled    bool // abort path: handler saw its context cancelled
-	ctxTimeout      bool // abort path: bounded wait expired
+	ctxCancelled    bool       // abort path: handler saw its context cancelled
+	ctxTimeout      bool       // abort path: bounded wait expired
 	chain           []chainObs // transient controllers seen by the chained Handle wrappers in front of the ctrl route
-	unwindOpen      []string // scopes of this request found open / with unclosed instances when the request left the chain
+	unwindOpen      []string   // scopes of this request found open / with unclosed instances when the request left the chain
 	unwindChecked   int
 
 	entered chan struct{} // abort path: handler reached the wait point
